@@ -100,6 +100,11 @@ class WrappingMatcher(mcore.Matcher):
         return self.child.supports_block_quality()
 
     def skip_to_quality(self, minquality):
+        if self.boost <= 0:
+            # The threshold cannot be translated to the child's scale (zero
+            # boost divides by zero, a negative one reverses the order), so
+            # nothing can be skipped safely
+            return 0
         return self.child.skip_to_quality(minquality / self.boost)
 
     def max_quality(self):
